@@ -5,7 +5,8 @@ from vlib import Infra, log
 
 RULE = ("S->C: TLC enumerates the case analysis of Addr_Gen (every int8 workchain x 4 flag combinations x both base64 alphabets x "
         "sampled 256-bit ids, int32 edge workchains for raw/JSON/TL, every single-character substitution 48 positions x 65 other "
-        "characters on sampled addresses, raw-text variants, addr_std with anycast depth 0..30, shard prefix lengths 0..60 x "
+        "characters on sampled addresses, raw-text variants, TL bytes under every delivery of the stream (all at once, one byte, half "
+        "reads, data-with-EOF, buffered, a split at every position, two ids on one stream, every truncation length), addr_std with anycast depth 0..30, shard prefix lengths 0..60 x "
         "matching / one-bit-off accounts x related block shards x child/parent, ADNL base32) and prints the required result of every "
         "conversion; the Go harness replays each vector through every conversion function of ton/, tlb/, liteclient/ and the root "
         "package and compares. C->S: conversions of random accounts / texts / shard ids recorded from the real code (plus the "
@@ -23,10 +24,12 @@ def samples(ck):
     nh = 32 if ck.thorough else 3
     hs = ["00" * 32, "ff" * 32, "aa" * 32, "55" * 32, "00" * 31 + "01", "80" + "00" * 31, "7f" + "ff" * 31,
           "0123456789abcdef" * 4, "fbefbe" * 10 + "fbef", "00" * 16 + "%032x" % r.getrandbits(128)]
+    if not ck.thorough:
+        hs = hs[:5] + hs[8:9]      # quick: the full int8 x flags grid runs over fewer pattern ids
     hs += ["%064x" % r.getrandbits(256) for _ in range(nh)]
     # the last id is the tail used for the one-bit-off accounts of the shard part: keep it random
     rnd = [format(r.getrandbits(64), "064b") for _ in range(6 if ck.thorough else 2)]
-    na = 48 if ck.thorough else 2
+    na = 48 if ck.thorough else 1
     sub = [{"wc": "-1", "hash": "ff" * 32, "b": False, "t": True, "url": False},      # many '/' digits: same-digit replacements
            {"wc": "0", "hash": "fbefbe" * 10 + "fbef", "b": True, "t": False, "url": True}]   # many '-' digits
     for i in range(na):
@@ -86,6 +89,18 @@ def check_generator(vecs, smp):
         raise Infra("shard part does not cover prefix lengths 0..60")
     if any(not any(a["exp"] for a in v["accts"]) or (v["n"] > 0 and not any(not a["exp"] for a in v["accts"])) for v in sh):
         raise Infra("a shard vector lacks matching or non-matching accounts")
+    tlv = [v for v in vecs if v["k"] == "tl"]
+    full = [v for v in tlv if len(v["bytes"]) == 72 and v["n"] == 1]
+    if set(v["rd"] for v in full) != {"bytes", "one", "half", "dataerr", "bufio16", "split"} or \
+            set(v["at"] for v in full if v["rd"] == "split") != set(range(1, 36)):
+        raise Infra("tl part does not cover every delivery / every split position 1..35 of a complete id")
+    if set(len(v["bytes"]) // 2 for v in tlv if v["n"] == 1 and v["exps"][0]["cls"] == "bad") != set(range(36)):
+        raise Infra("tl part does not cover every truncation length 0..35")
+    if any(v["exps"][0]["cls"] != ("ok" if len(v["bytes"]) >= 72 else "bad") for v in tlv):
+        raise Infra("specification: TL verdict does not follow the length of the stream")
+    two = [v for v in tlv if v["n"] == 2 and len(v["bytes"]) == 144]
+    if set(v["at"] for v in two if v["rd"] == "split") != set(range(1, 72)) or any(e["cls"] != "ok" for v in two for e in v["exps"]):
+        raise Infra("tl part does not cover two ids on one stream split at every position")
     depths = set(v["d"] for v in vecs if v["k"] == "tlb" and v["cls"] == "ok")
     if depths != set(range(31)):
         raise Infra("tlb part does not cover anycast depths 0..30: %s" % sorted(depths))
@@ -110,13 +125,37 @@ def text_class(s):
     return "other"
 
 
+def tl_key(reader, nbytes):
+    """TL decode failures by input class: how the stream was delivered, not which sample / wrapper function."""
+    if nbytes < 36:
+        return "C17:UnmarshalTL:tl:truncated"
+    return "C17:UnmarshalTL:tl:" + ("single-read" if reader == "bytes" else "multi-read")
+
+
+def vector_key(v, f):
+    fn = f["fn"]
+    if fn.startswith("UnmarshalTL") or fn.startswith("tl.Unmarshal"):
+        if v["k"] == "tl":
+            i = int(fn[fn.index("#") + 1:]) if "#" in fn else 1
+            return tl_key(v["rd"], len(v["bytes"]) // 2 - 36 * (i - 1))     # bytes left for the id that was judged
+        return tl_key(fn[fn.index("[") + 1:-1] if "[" in fn else "bytes", 36)
+    return "C17:%s:%s" % (fn, v["cl"])
+
+
 def event_key(e):
     k = e.get("k", "?")
     if k == "Parse":
         s = bytes.fromhex(e["sx"]).decode("latin1").strip('"') if "sx" in e else e.get("s", "")
         return "C17:Parse.%s:%s" % (e.get("fn"), text_class(s))
     if k == "Enc":
+        wrong = [b["fn"] for b in e.get("backs", []) if b["err"] != "" or b["wc"] != e["wc"] or b["hash"] != e["hash"]]
+        if wrong and all(f.startswith("tl-") for f in wrong):      # only the TL parse-backs over multi-read deliveries differ
+            return tl_key("multi", 36)
         return "C17:Enc:%s" % ("int8" if "human" in e else "int32")
+    if k == "TlDec":
+        n = len(e.get("bytes", "")) // 2
+        second_only = e["outs"][0]["err"] == "" or n < 36
+        return tl_key(e.get("rd"), n - 36 if (n >= 36 and second_only and n < 72) else n)
     if k in ("TlbEnc", "TlbDec"):
         return "C17:%s:%s" % (k, "anycast" if e.get("d") else "plain")
     if k == "Parents":
@@ -149,7 +188,7 @@ def run(ck):
             ck.traces_ok += 1
             continue
         for f in r_["fails"]:
-            ck.report("C17:%s:%s" % (f["fn"], v["cl"]), "vector %d (%s): %s(%s): specification requires %s, code gave %s" % (
+            ck.report(vector_key(v, f), "vector %d (%s): %s(%s): specification requires %s, code gave %s" % (
                 v["vec"], v["cl"], f["fn"], f.get("in", ""), json.dumps(f["exp"]), json.dumps(f["got"])),
                 {"kind": "vector", "vector": v, "fail": f})
     ck.evaluations += len(vecs)
@@ -175,13 +214,17 @@ def run(ck):
     c3["accts"][0]["exp"] = not c3["accts"][0]["exp"]
     c4 = copy.deepcopy(next(v for v in vecs if v["k"] == "tlb" and v["cls"] == "ok" and v["d"] == 5))
     c4["hash"] = ("0" if c4["hash"][0] != "0" else "8") + c4["hash"][1:]
-    cres = run_replay(ck, [c1, c2, c3, c4], "canary_vec")
+    c5 = copy.deepcopy(next(v for v in vecs if v["k"] == "tl" and v["rd"] == "half" and v["n"] == 2 and len(v["bytes"]) == 144))
+    c5["exps"][1]["hash"] = ("0" if c5["exps"][1]["hash"][-1] != "0" else "8") + c5["exps"][1]["hash"][1:]
+    c6 = copy.deepcopy(next(v for v in vecs if v["k"] == "tl" and v["rd"] == "one" and len(v["bytes"]) == 70))
+    c6["exps"][0] = {"cls": "ok", "wc": good["wc"], "hash": good["hash"]}
+    cres = run_replay(ck, [c1, c2, c3, c4, c5, c6], "canary_vec")
     for nm, r_ in zip(["ToHuman expectation altered", "substituted text expected to parse", "shard match expectation flipped",
-                       "anycast rewrite expectation altered"], cres):
+                       "anycast rewrite expectation altered", "second id of a TL stream altered", "truncated TL stream expected to decode"], cres):
         ck.canary("S->C: " + nm, not r_["match"])
 
     # ------------------------------------------------------------------ C->S
-    shards = vlib.NCPU
+    shards = vlib.NCPU if ck.thorough else 8      # quick: fewer, longer traces (JVM start-up dominates)
 
     def drive(i):
         tp = os.path.join(ck.work, "trace_%02d.ndjson" % i)
@@ -236,20 +279,25 @@ def run(ck):
     ok = next(e for e in body if e["k"] == "Enc" and "human" in e)
     c = copy.deepcopy(body[:j + 2]); c[j]["err"] = ""; c[j]["wc"] = ok["wc"]; c[j]["hash"] = ok["hash"]
     cans.append(("C->S: rejected checksum failure logged as accepted", c, j + 1))
+    j = next(i for i, e in enumerate(body) if e["k"] == "TlDec" and e["outs"][0]["err"] == "" and e["rd"] != "bytes")
+    c = copy.deepcopy(body[:j + 2]); hh = c[j]["outs"][0]["hash"]; c[j]["outs"][0]["hash"] = hh[:-2] + ("00" if hh[-2:] != "00" else "01")
+    cans.append(("C->S: tail of a TL-decoded id zeroed", c, j + 1))
     j = next(i for i, e in enumerate(body) if e["k"] == "Parents" and e["mode"] == "merge")
     c = copy.deepcopy(body[:j + 2]); c[j]["out"] = c[j]["out"][::-1]
     cans.append(("C->S: children swapped", c, j + 1))
 
-    def can(t):
-        nm, c, want = t
-        ci = [x[0] for x in cans].index(nm)
-        p_ = os.path.join(ck.work, "canary_%d.ndjson" % ci)
-        vlib.write_ndjson(p_, c + [{"k": "End"}])
-        _, rej = ck.validate_segments("Addr_Trace", "trace/Addr_Trace.cfg", p_, name="canary%d" % ci)
-        return len(rej) >= 1 and any(r_["line"] == want for r_ in rej)
+    # one TLC run judges all canaries: each is its own two-line segment (Reset, the corrupted event)
+    lines_, want_rej = [], {}
+    for nm, c, want in cans:
+        lines_ += [{"k": "Reset", "p": "C17"}, c[want - 1]]
+        want_rej[len(lines_) - 1] = nm
+    p_ = os.path.join(ck.work, "canaries.ndjson")
+    vlib.write_ndjson(p_, lines_ + [{"k": "End"}])
     st, tr, okc, evl = ck.states, ck.transitions, ck.traces_ok, ck.evaluations
-    for t, rejected_ok in zip(cans, vlib.parallel(can, cans, n=6)):
-        ck.canary(t[0], rejected_ok)
+    _, rej = ck.validate_segments("Addr_Trace", "trace/Addr_Trace.cfg", p_, name="canaries")
+    rej_starts = {r_["seg"] for r_ in rej}
+    for seg_, nm in want_rej.items():
+        ck.canary(nm, seg_ in rej_starts)
     ck.states, ck.transitions, ck.traces_ok, ck.evaluations = st, tr, okc, evl
     return ck.finish(rule=RULE, distinct=len(set(json.dumps({k: v for k, v in x.items() if k != "vec"}, sort_keys=True) for x in vecs)) + len(distinct_events))
 
@@ -275,7 +323,8 @@ def replay(ck, path):
         if p.returncode != 0:
             raise Infra("in-package recorder failed:\n" + (p.stdout or "")[-3000:])
     else:
-        ck.run_vh(["drive", "C17", "-out", tp, "-tier", rp["tier"], "-seed", rp["seed"], "-shard", int(name[6:8]), "-shards", vlib.NCPU])
+        ck.run_vh(["drive", "C17", "-out", tp, "-tier", rp["tier"], "-seed", rp["seed"], "-shard", int(name[6:8]),
+                   "-shards", vlib.NCPU if rp["tier"] == "thorough" else 8])
     _, rejected = ck.validate_segments("Addr_Trace", "trace/Addr_Trace.cfg", tp, timeout=3000, name="replay")
     for rj in rejected:
         print(json.dumps(rj["event"])[:2000])
